@@ -53,6 +53,7 @@ macro_rules! targets {
 targets!(
   "a", "a::b", "a::b::c", "a::b::c::d", "a::bc", "a::bc::d", "ab", "ab::c", "abc", "a:", "a::", "a::::b", "a:::b",
   "b", "b::a", "b::a::a", "ba", "c", "c::a", "root", "root::x", "", "::a", "x::y::z", "a::b::cd", "a::b:c", "A", "a::B",
+  "roo", "rootx", "x", "x::y",
 );
 
 /// logger names the generator draws from (any string is a legal YAML key)
@@ -442,7 +443,13 @@ fn run_case(cin: &CaseIn, dir: &str) -> String {
   if kv(&cin.header, "kind") == Some("race") { return run_race(cin, dir); }
   let k = match parse_case(cin) {
     Ok(k) => k,
-    Err(e) => { let mut tr = Tr::new(&cin.id, &cin.header.join(" ")); tr.raw(&format!("# unparsable case: {e}")); return tr.finish(); }
+    Err(e) => {
+      eprintln!("case {}: {e}", cin.id);
+      let mut tr = Tr::new(&cin.id, &cin.header.join(" "));
+      tr.raw(&format!("# unparsable case: {e}"));
+      tr.monitor("harness:unparsable-case", &e);
+      return tr.finish();
+    }
   };
   let header = format!("threads={}{}", k.threads, if k.root_implicit { " rootimplicit=1" } else { "" });
   let mut tr = Tr::new(&k.id, &header);
